@@ -385,10 +385,15 @@ pub fn minimise(
 ) -> (Case, usize) {
     let mut cur = case.clone();
     let mut spent = 0usize;
+    // bounded in wall-clock time as well: candidates of a multi-megabyte case are expensive
+    let deadline = std::time::Instant::now() + std::time::Duration::from_secs(45);
     loop {
+        if std::time::Instant::now() > deadline {
+            return (cur, spent);
+        }
         let mut improved = false;
         for cand in candidates(&cur) {
-            if spent >= max_candidates {
+            if spent >= max_candidates || std::time::Instant::now() > deadline {
                 return (cur, spent);
             }
             spent += 1;
